@@ -20,6 +20,7 @@ import (
 	"os"
 	"sort"
 	"strings"
+	"time"
 
 	"github.com/alpacahq/marketstore/v4/contrib/ondiskagg/aggtrigger"
 	"github.com/alpacahq/marketstore/v4/plugins/trigger"
@@ -108,22 +109,24 @@ func odaWrite(sym string, bars []odaBar) string {
 }
 
 func (g *Gen) odaPrice() uint32 {
-	switch g.Intn(40) {
+	switch g.Intn(400) {
 	case 0:
-		return 0x7fc00000 // NaN
-	case 1:
+		return 0x7fc00000 // NaN (outside the property's domain: model only)
+	case 1, 2:
 		return 0x80000000 // -0
-	case 2:
+	case 3, 4, 5, 6:
 		return odaF32(-float32(g.Intn(50)))
-	case 3:
+	case 7:
 		return 0x7f800000 // +Inf
+	case 8:
+		return 0xff800000 // -Inf
 	}
 	return odaF32(float32(g.Intn(400)) / 4)
 }
 
 func (g *Gen) odaBar(t int64) odaBar {
 	b := odaBar{t: t, o: g.odaPrice(), h: g.odaPrice(), l: g.odaPrice(), c: g.odaPrice()}
-	switch g.Intn(60) {
+	switch g.Intn(300) {
 	case 0:
 		b.v = math.MaxInt32 - int32(g.Intn(3)) // window sum overflows: SumInt32 panics
 	case 1:
@@ -217,6 +220,18 @@ func genC24(g *Gen) {
 				cursor += 60
 				tags["w:sameslot"] = true
 			}
+			// one request stays inside one year file: the dispatcher would start one trigger call
+			// per file CONCURRENTLY (shared cache, not deterministic)
+			{
+				y0 := time.Unix(bars[0].t, 0).UTC().Year()
+				kept := bars[:0]
+				for _, b := range bars {
+					if time.Unix(b.t, 0).UTC().Year() == y0 {
+						kept = append(kept, b)
+					}
+				}
+				bars = kept
+			}
 			for _, b := range bars {
 				written = append(written, b.t-b.t%60)
 			}
@@ -228,7 +243,7 @@ func genC24(g *Gen) {
 			steps = append(steps, odaWrite(sym, bars))
 		}
 		if g.Intn(30) == 0 {
-			steps = append(steps, "W:T/1H/OHLCV:f:"+odaCols+":"+g.odaBar(base).row())
+			steps = append(steps, "W:T/1Min/OHLC:f:"+odaCols+":"+g.odaBar(base).row())
 			tags["w:nonmatching-bucket"] = true
 		}
 		tags[fmt.Sprintf("nsteps:%d", len(steps))] = true
